@@ -2,6 +2,7 @@
 package main
 
 import (
+	"sort"
 	"fmt"
 	"go/constant"
 	"go/token"
@@ -396,6 +397,53 @@ func c05Splitter(c *Ctx, p *Prog) {
 		}
 	})
 	c.Check(okDigits, R, "splitter:digits-only", site, "only digits are skipped while looking for the '-'", "the splitter does not restrict the suffix to digits")
+	// "exactly when": per scanned position, whenever the byte is '-' and something follows it, the iteration must end
+	// in the split return; a further condition on that path (position > 0, length limits) makes well-formed -N
+	// suffixes go unsplit for some names.
+	nIter := 0
+	for _, lp := range naturalLoops(split) {
+		start := loopBodyStart(lp)
+		if start == nil {
+			continue
+		}
+		mk := func() *e6Interp { return &e6Interp{PureCall: func(f *types.Func) bool { return true }} }
+		outs, why := e6Enumerate(mk, start, lp.Header, iterStop(lp, start), 256)
+		if why != "" {
+			c.Undecided(R, "splitter:iteration", site, why)
+			continue
+		}
+		for _, o := range outs {
+			dash, follows, other := "?", "?", []string{}
+			for k, v := range o.Assign {
+				s := o.AtomSyms[k]
+				str := s.String()
+				switch {
+				case s.Op == "binop" && s.Tok == token.EQL && s.Args[1].isConst() && s.Args[1].String() == "45":
+					dash = fmt.Sprint(v)
+				case s.Op == "binop" && s.Tok == token.NEQ && s.Args[1].isConst() && s.Args[1].String() == "45":
+					dash = fmt.Sprint(!v)
+				case s.Op == "binop" && strings.Contains(str, "len(") && (s.Tok == token.LSS || s.Tok == token.NEQ):
+					follows = fmt.Sprint(v)
+				case s.Op == "binop" && strings.Contains(str, "len(") && (s.Tok == token.GEQ || s.Tok == token.EQL):
+					follows = fmt.Sprint(!v)
+				default:
+					other = append(other, fmt.Sprintf("%s=%v", k, v))
+				}
+			}
+			if dash == "false" || follows == "false" {
+				continue
+			}
+			if dash == "?" {
+				continue // the byte was not compared with '-' on this path: judged by the rules above
+			}
+			nIter++
+			sort.Strings(other)
+			isSplit := o.Term == "return" && len(o.Results) == 2 && !(o.Results[1].isConst() && o.Results[1].IsNil)
+			c.Check(isSplit, R, fmt.Sprintf("splitter:dash-followed-by-bytes#%d", nIter), site, "a '-' followed by at least one byte ends the scan with a split",
+				fmt.Sprintf("at a '-' that is followed by at least one byte the splitter does not split when %s: names such as \"-8\" (a Benchmark line whose name is only the suffix) keep the suffix in .name and report no /gomaxprocs", strings.Join(other, " ∧ ")))
+		}
+	}
+	c.Floor(R, "iteration paths through a '-' with bytes after it", nIter, 1)
 }
 
 // byteIndexOfAny: like byteIndexOf but also through named byte-slice types.
@@ -470,6 +518,31 @@ func c05Lookup(c *Ctx, p *Prog) {
 			}
 		}
 	}
+	// all parts are scanned: the slice indexed by the loop variable is the very slice Name.Parts returned
+	nScan := 0
+	for _, lp := range naturalLoops(fn) {
+		for b := range lp.Blocks {
+			for _, in := range b.Instrs {
+				ia, ok := in.(*ssa.IndexAddr)
+				if !ok {
+					continue
+				}
+				if sl, ok := ia.X.Type().Underlying().(*types.Slice); !ok || !isBytesOrString(sl.Elem()) {
+					continue
+				}
+				nScan++
+				whole := false
+				if ex, ok := stripConv(ia.X).(*ssa.Extract); ok && ex.Index == 1 {
+					if call, ok := ex.Tuple.(*ssa.Call); ok && objIs(calleeObj(&call.Call), bfPkg, "Name", "Parts") {
+						whole = true
+					}
+				}
+				c.Check(whole, R, fmt.Sprintf("lookup:scans-all-parts#%d", nScan), p.pos(ia.Pos()), "the scan indexes the slice returned by Name.Parts",
+					"the sub-name scan runs over a re-sliced or substituted part list, not over all parts returned by Name.Parts: an explicit /k=v segment outside that range (e.g. /gomaxprocs=4 followed by further segments) is not found")
+			}
+		}
+	}
+	c.Floor(R, "part accesses in the scan loop", nScan, 1)
 	c.Check(okFwd && okRet, R, "lookup:first-match", site, "parts are scanned in order and the first part with the prefix decides",
 		fmt.Sprintf("the sub-name lookup does not return the first part that has the prefix (ascending scan: %v, returns text after the prefix on a match: %v): with a repeated key /k yields a later segment's value", okFwd, okRet))
 	// -N form: only under the gomaxprocs flag, on the last part, when it starts with '-'
